@@ -178,7 +178,9 @@ Definition run_conc (fuel : nat) (c : conc_case)
   let st0 := init_store (cc_bases c) in
   let rs := mkRS st0 [] in
   (* sequential setup *)
-  let st1 := rs_store (fold_left (fun rs o => fst (run_op (cc_cfg c) fuel 1000 o rs)) (cc_setup c) rs) in
+  (* the i-th setup op has index 1000 + i (its handle register, as in the harness) *)
+  let st1 := rs_store (snd (fold_left (fun ir o => (S (fst ir), fst (run_op (cc_cfg c) fuel (fst ir) o (snd ir))))
+                                      (cc_setup c) (1000, rs))) in
   let '(st2, p) := start (cc_cfg c) fuel (cc_threads c) st1 in
   let '(st3, p', labels) := follow (cc_schedule c) st2 p [] in
   let snap := match inst (cc_cfg c) (cc_target c) with
